@@ -276,7 +276,7 @@ non-trivial = a proxy is involved or the URL has >= 2 of {explicit port, IPv6, f
     }
 
     fn cases_per_worker(tier: Tier) -> u32 {
-        tier.pick(400, 4000)
+        tier.pick(400, 12_000)
     }
 
     fn workers(_tier: Tier) -> usize {
